@@ -2,7 +2,7 @@
    asked for), memory reader, stream reader of every chunk size, arbitrary chunk lists.  The loops are proved in
    CsvReaderProofs.v (load_hist_spec) and CsvStreamProofs.v (s_load_hist_spec, over any chunk source); here the
    statements on the three loaders, the by-name reading for distinct header names, and what happens otherwise. *)
-From BS Require Import Base CsvSpec CsvSpecProofs CsvModel CsvWriterProofs CsvReaderProofs CsvStreamProofs CsvChunks.
+From BS Require Import Base CsvSpec CsvSpecProofs CsvModel CsvWriterProofs CsvReaderProofs CsvStreamProofs CsvTotalProofs CsvStreamTotal CsvChunks.
 From Coq Require Import ZifyBool ZifyN ZifyNat.
 Local Open Scope N_scope.
 
@@ -128,3 +128,22 @@ Lemma hist_example :
   csv_load_chunks_hist false 59 [[[97]]; [[97; 98]; [97]]] [firstn 20 text; skipn 20 text] =
     Ok [[Some [51]]; [Some [54]; Some [55]]].
 Proof. vm_compute. repeat split; reflexivity. Qed.
+
+(* ---------- total on ARBITRARY text (not only RFC 4180 renderings), every request program ---------- *)
+Theorem csv_load_chunks_hist_total early sep progs chunks : Forall nonempty chunks -> clean (csv_load_chunks_hist early sep progs chunks).
+Proof.
+  intros F. unfold csv_load_chunks_hist.
+  apply (csv_load_src_hist_total (chunks_rd early) chunks_iend chunks_rest chunks_ok (chunks_rd_spec early) chunks_iend_spec).
+  - apply chunks_start. exact F.
+  - unfold chunks_rest. cbn [fst]. lia.
+Qed.
+
+Theorem hist_total sep progs text :
+  clean (csv_load_hist sep progs text) /\
+  (forall K, (0 < K)%nat -> clean (csv_load_stream_hist K sep progs text)) /\
+  (forall early chunks, Forall nonempty chunks -> clean (csv_load_chunks_hist early sep progs chunks)).
+Proof.
+  split; [apply csv_load_hist_total|]. split.
+  - intros K HK. apply csv_load_stream_hist_total. exact HK.
+  - intros early chunks F. apply csv_load_chunks_hist_total. exact F.
+Qed.
